@@ -636,3 +636,276 @@ def const_flags(ctx) -> dict:
                         if k.arg == 'flags':
                             out[st.targets[0].id] = inv.folder.try_ev('css_parser', k.value, default=0)
     return out
+
+
+# ---- "same element type" of the -of-type pseudo-classes ------------------------------------------------------------------
+def same_type_table(ctx, rule):
+    """match_nth_tag_type(el, child) over name spellings x namespaces x document kind: two siblings are of the same type
+    exactly when the type selector treats their names as the same (ASCII-insensitive in HTML, verbatim in XML) and their
+    namespaces are equal."""
+    from ..tables import el_obj, matcher_obj
+    fnq = 'css_match.CSSMatch.match_nth_tag_type'
+    mod, fn = ctx.src.func(fnq)
+    first_bad = None
+    for is_xml in (False, True):
+        me = matcher_obj(is_xml=is_xml, is_html=not is_xml)
+        for a, b in itertools.product(('p', 'P', 'q'), ('p', 'P')):
+            for ns_a, ns_b in (('n1', 'n1'), ('n1', 'n2'), (None, None), (None, 'n1')):
+                try:
+                    got = bool(call_function(ctx, fnq, [el_obj(a, namespace=ns_a, is_xml=is_xml), el_obj(b, namespace=ns_b, is_xml=is_xml)],
+                                             {}, {'css_match.CSSMatch.supports_namespaces': lambda: True}, me))
+                except Raised as e:
+                    got = f'raises {e.exc_name}'
+                except Unsupported as e:
+                    raise AnalysisError(f'match_nth_tag_type: outside the evaluable fragment: {e}')
+                same_name = (a == b) if is_xml else (a.lower() == b.lower())
+                exp = same_name and ns_a == ns_b
+                rule.instance({'xml': is_xml, 'element': (a, ns_a), 'sibling': (b, ns_b), 'same_type': got, 'expected': exp},
+                              key=f'same-type|{is_xml}|{a}|{b}|{ns_a}|{ns_b}', sample_cap=3)
+                if got != exp and first_bad is None:
+                    first_bad = (is_xml, a, ns_a, b, ns_b, got, exp)
+    rule.obligation(first_bad is None)
+    if first_bad is not None:
+        is_xml, a, ns_a, b, ns_b, got, exp = first_bad
+        rule.violation('css_match.CSSMatch.match_nth_tag_type same-type table', mod.where(fn),
+                       f'match_nth_tag_type says {got} for an element <{a}> (namespace {ns_a}) and a sibling <{b}> (namespace {ns_b}) in '
+                       f'{"an XML" if is_xml else "an HTML"} document; expected {exp}: siblings are of one type exactly when their names '
+                       f'are equal the way the type selector compares names (ASCII case-insensitively in HTML, verbatim in XML) and '
+                       f'their namespaces are equal')
+
+
+# ---- iframe policy: which walks stop at an iframe boundary ------------------------------------------------------------------
+class _Stop(Exception):
+    pass
+
+
+def iframe_policy(ctx, rule, fnq, make_args, expect, what, accessors=('get_parent', 'get_children', 'get_contents',
+                                                                      'get_descendants', 'get_tag_descendants', 'get_text',
+                                                                      'get_own_text'), self_fields=None, first_only=True, extra_stubs=None):
+    """Interpret `fnq` up to its first tree walk and compare the `no_iframe` argument it passes with the policy.
+    `expect(is_html, iframe_restrict)` gives the required value; `what` says why (used in the report)."""
+    mod, fn = ctx.src.func(fnq)
+    params = {}
+    for a in accessors:
+        q = ctx.src.find_method('css_match.CSSMatch', a)
+        if q:
+            _, afn = ctx.src.func(q)
+            params[q] = [x.arg for x in afn.args.args[1:]] + [x.arg for x in afn.args.kwonlyargs]
+    bad = None
+    n = 0
+    for is_html, restrict in itertools.product((True, False), (True, False)):
+        seen = []
+
+        def mk(q):
+            def stub(*a, **kw):
+                bound = dict(zip(params[q], a))
+                bound.update(kw)
+                seen.append((q.split('.')[-1], bool(bound.get('no_iframe', False))))
+                if first_only:
+                    raise _Stop()
+                return None if q.endswith('get_parent') else []
+            return stub
+        stubs = {q: mk(q) for q in params}
+        stubs.update(extra_stubs or {})
+        from ..tables import matcher_obj
+        me = matcher_obj(is_xml=not is_html, is_html=is_html, iframe_restrict=restrict, **(self_fields or {}))
+        try:
+            call_function(ctx, fnq, make_args(), {}, stubs, me)
+        except _Stop:
+            pass
+        except Raised:
+            pass
+        except Unsupported as e:
+            if not seen:
+                raise AnalysisError(f'{fnq}: outside the evaluable fragment before any tree walk: {e}')
+        if not seen:
+            raise AnalysisError(f'{fnq}: no tree walk ({", ".join(accessors)}) was reached (anchor vanished)')
+        exp = expect(is_html, restrict)
+        for i, (acc, got) in enumerate(seen if not first_only else seen[:1]):
+            n += 1
+            rule.instance({'function': fnq.split('.')[-1], 'walk': acc, 'html_document': is_html, 'iframe_restrict': restrict,
+                           'no_iframe_passed': got, 'expected': exp}, key=f'iframe|{fnq}|{is_html}|{restrict}|{i}', sample_cap=2)
+            if got != exp and bad is None:
+                bad = (acc, is_html, restrict, got, exp)
+    rule.obligation(bad is None)
+    if bad is not None:
+        acc, is_html, restrict, got, exp = bad
+        rule.violation(f'{fnq} iframe policy', mod.where(fn),
+                       f'{fnq.split(".")[-1]} calls {acc}(..., no_iframe={got}) in {"an HTML" if is_html else "an XML"} document '
+                       f'(iframe_restrict={restrict}); {what} requires no_iframe={exp}')
+
+
+# ---- the SoupSieve methods: one matcher per call target, scoped on it ---------------------------------------------------------
+def soupsieve_methods_table(ctx, rule):
+    """Interpret SoupSieve.match/closest/filter/select/iselect/select_one with a recording stand-in for CSSMatch."""
+    from ..tables import el_obj
+    SEL, NS, FLG = Obj(_name='SELECTORS'), Obj(_name='NAMESPACES'), 7
+    mod = ctx.src.mod('css_match')
+
+    def session(truth):
+        log = {'ctors': [], 'calls': []}
+
+        def ctor(*a, **kw):
+            names = ['selectors', 'scope', 'namespaces', 'flags']
+            bound = dict(zip(names, a))
+            bound.update(kw)
+            m = Obj(_name=f'matcher#{len(log["ctors"])}', **bound)
+            log['ctors'].append(m)
+
+            def match(el, _m=m):
+                log['calls'].append(('match', _m, el))
+                return truth.get(id(el), False)
+
+            def closest(_m=m):
+                log['calls'].append(('closest', _m, None))
+                return 'CLOSEST'
+
+            def filt(_m=m):
+                log['calls'].append(('filter', _m, None))
+                return ['FILTERED']
+
+            def select(limit=0, _m=m):
+                log['calls'].append(('select', _m, limit))
+                return ['S1', 'S2'][:limit or None]
+            for k, f in (('match', match), ('closest', closest), ('filter', filt), ('select', select)):
+                m.set(k, f)
+            return m
+        return log, {'css_match.CSSMatch': ctor, 'css_match._DocumentNav.is_navigable_string': lambda n: isinstance(n, str),
+                     'css_match._DocumentNav.is_tag': lambda n: isinstance(n, Obj)}
+
+    def run(method, args, kwargs=None, truth=None):
+        log, stubs = session(truth or {})
+        me = Obj(_cls='css_match.SoupSieve', _name='compiled', pattern='p', selectors=SEL, namespaces=NS, custom=None, flags=FLG)
+        try:
+            res = call_function(ctx, f'css_match.SoupSieve.{method}', args, kwargs or {}, stubs, me)
+        except Raised as e:
+            res = f'raises {e.exc_name}'
+        except Unsupported as e:
+            raise AnalysisError(f'SoupSieve.{method}: outside the evaluable fragment: {e}')
+        return res, log
+
+    def ctor_ok(m, target):
+        return m.get('selectors') is SEL and m.get('scope') is target and m.get('namespaces') is NS and m.get('flags') == FLG
+
+    def check(key, ok, detail, msg):
+        rule.instance({'case': key, **detail, 'holds': ok}, key='api|' + key)
+        rule.obligation(ok)
+        if not ok:
+            rule.violation(f'css_match.SoupSieve {key}', mod.where(mod.classes['SoupSieve']), msg)
+    kids = [el_obj('child1'), 'text', el_obj('child2')]
+    t = el_obj('target', contents=kids, __iter__=kids)
+    for verdict in (True, False):
+        res, log = run('match', [t], truth={id(t): verdict})
+        ok = res is verdict and len(log['ctors']) == 1 and ctor_ok(log['ctors'][0], t) and \
+            [(c[0], c[2]) for c in log['calls']] == [('match', t)]
+        check(f'match -> {verdict}', ok, {'result': repr(res), 'matchers': len(log['ctors'])},
+              f'SoupSieve.match(tag) must be CSSMatch(selectors, tag, namespaces, flags).match(tag): got {res!r} from '
+              f'{len(log["ctors"])} matcher(s), calls {[(c[0], repr(c[2])) for c in log["calls"]]}')
+    res, log = run('closest', [t])
+    check('closest', res == 'CLOSEST' and len(log['ctors']) == 1 and ctor_ok(log['ctors'][0], t), {'result': repr(res)},
+          'SoupSieve.closest(tag) must be CSSMatch(selectors, tag, namespaces, flags).closest()')
+    res, log = run('filter', [t])
+    check('filter(tag)', res == ['FILTERED'] and len(log['ctors']) == 1 and ctor_ok(log['ctors'][0], t), {'result': repr(res)},
+          'SoupSieve.filter(tag) must be CSSMatch(selectors, tag, namespaces, flags).filter()')
+    par = el_obj('parent')
+    a, b, c = el_obj('a', parent=par), el_obj('b', parent=par), el_obj('c', parent=par)
+    for truth in ({id(a): True, id(b): True, id(c): True}, {id(a): False, id(b): True, id(c): False}, {}):
+        items = [a, 'text', b, c]
+        res, log = run('filter', [items], truth=truth)
+        exp = [x for x in (a, b, c) if truth.get(id(x), False)]
+        per_item = all(m is not None and m.get('scope') is el and ctor_ok(m, el) for _, m, el in log['calls'])
+        fresh = len({id(m) for _, m, _ in log['calls']}) == len(log['calls'])
+        matched = [el for _, _, el in log['calls']]
+        ok = isinstance(res, list) and len(res) == len(exp) and all(x is y for x, y in zip(res, exp)) and per_item and fresh \
+            and len(matched) == 3 and all(x is y for x, y in zip(matched, (a, b, c)))
+        check(f'filter(list) {sorted(truth.values())}', ok,
+              {'result': repr(res), 'expected': repr(exp), 'own_matcher_per_item': per_item and fresh},
+              f'SoupSieve.filter(iterable) must equal [x for x in iterable if x is a tag and match(x)] with a fresh matcher scoped on '
+              f'each item: got {res!r} (expected {exp!r}); matcher scoped on its item: {per_item}; one matcher per item: {fresh}. '
+              f'A matcher shared between items evaluates :scope against the wrong element and carries memo state across documents')
+    for limit in (0, 1, 2):
+        res, log = run('select', [t], {'limit': limit})
+        exp = ['S1', 'S2'][:limit or None]
+        ok = res == exp and len(log['ctors']) == 1 and ctor_ok(log['ctors'][0], t) and [c[2] for c in log['calls']] == [limit]
+        check(f'select limit={limit}', ok, {'result': repr(res)},
+              f'SoupSieve.select(tag, limit={limit}) must be list(CSSMatch(selectors, tag, namespaces, flags).select({limit})): got {res!r}, '
+              f'limits passed {[c[2] for c in log["calls"]]}')
+        res, log = run('iselect', [t], {'limit': limit})
+        ok = list(res) == exp and len(log['ctors']) == 1 and ctor_ok(log['ctors'][0], t) and [c[2] for c in log['calls']] == [limit]
+        check(f'iselect limit={limit}', ok, {'result': repr(res)},
+              f'SoupSieve.iselect(tag, limit={limit}) must yield from CSSMatch(selectors, tag, namespaces, flags).select({limit})')
+    res, log = run('select_one', [t])
+    ok = res == 'S1' and [c[2] for c in log['calls']] == [1] and len(log['ctors']) == 1 and ctor_ok(log['ctors'][0], t)
+    check('select_one', ok, {'result': repr(res)},
+          f'SoupSieve.select_one(tag) must be the first element of select(tag, limit=1) (or None): got {res!r}, limits {[c[2] for c in log["calls"]]}')
+
+
+# ---- :lang(): language of an element from lang attributes and the content-language pragma -----------------------------------
+def lang_table(ctx, rule):
+    """Interpret match_lang on small abstract HTML trees; the language filter is replaced by a recorder, so the table shows
+    which language the element is found to have."""
+    from ..tables import el_obj, matcher_obj
+    fnq = 'css_match.CSSMatch.match_lang'
+    mod, fn = ctx.src.func(fnq)
+
+    def tree(metas, html_lang=None, el_lang=None, body_lang=None):
+        doc = el_obj('[document]', label='BeautifulSoup')
+        html = el_obj('html', parent=doc, attrs=({'lang': html_lang} if html_lang is not None else {}))
+        doc.set('contents', [html]); doc.set('__iter__', [html]); doc.set('__len__', 1)
+        head = el_obj('head', parent=html)
+        ms = [el_obj('meta', attrs=dict(a), parent=head) for a in metas]
+        head.set('contents', ms)
+        head.set('__iter__', ms)
+        head.set('__len__', len(ms))
+        body = el_obj('body', parent=html, attrs=({'lang': body_lang} if body_lang is not None else {}))
+        el = el_obj('p', parent=body, attrs=({'lang': el_lang} if el_lang is not None else {}))
+        body.set('contents', [el]); body.set('__iter__', [el]); body.set('__len__', 1)
+        el.set('contents', []); el.set('__iter__', []); el.set('__len__', 0)
+        html.set('contents', [head, body]); html.set('__iter__', [head, body]); html.set('__len__', 2)
+        return html, el
+
+    def language_of(metas, **kw):
+        html, el = tree(metas, **kw)
+        seen = []
+
+        def filt(pattern, found):
+            seen.append(found)
+            return True
+        me = matcher_obj(is_xml=False, is_html=True, root=html, cached_meta_lang=[], has_html_namespace=False)
+        stubs = {'css_match.CSSMatch.extended_language_filter': filt, 'css_match.CSSMatch.supports_namespaces': lambda: False}
+        langs = (Obj(_name='SelectorLang', languages=('xx',), __iter__=['xx'], __len__=1),)
+        try:
+            r = call_function(ctx, fnq, [el, langs], {}, stubs, me)
+        except Raised as e:
+            return f'raises {e.exc_name}'
+        except Unsupported as e:
+            raise AnalysisError(f'match_lang: outside the evaluable fragment: {e}')
+        return seen[0] if seen else None
+    P, C = ('http-equiv', 'content-language'), ('content', 'en-US')
+    cases = [
+        ('pragma, http-equiv first', [[P, C]], {}, 'en-US'),
+        ('pragma, content first', [[C, P]], {}, 'en-US'),
+        ('pragma with other attributes around', [[('name', 'x'), C, ('id', 'm'), P]], {}, 'en-US'),
+        ('pragma spelled in upper case', [[('HTTP-EQUIV', 'Content-Language'), ('CONTENT', 'en-US')]], {}, 'en-US'),
+        ('second meta is the pragma', [[('charset', 'utf-8')], [C, P]], {}, 'en-US'),
+        ('meta with another http-equiv', [[('http-equiv', 'refresh'), C]], {}, None),
+        ('content of an earlier meta does not leak into the pragma', [[('name', 'd'), ('content', 'zz')], [P]], {}, None),
+        ('no meta', [], {}, None),
+        ('lang attribute on the element wins', [[P, C]], {'el_lang': 'fr'}, 'fr'),
+        ('lang attribute on an ancestor wins', [[P, C]], {'body_lang': 'de'}, 'de'),
+        ('lang attribute on the root wins', [[C, P]], {'html_lang': 'it'}, 'it'),
+        ('empty lang attribute is a language (unknown), not "missing"', [[P, C]], {'el_lang': ''}, ''),
+    ]
+    bad = None
+    for what, metas, kw, exp in cases:
+        got = language_of(metas, **kw)
+        rule.instance({'case': what, 'language_found': got, 'expected': exp}, key='lang|' + what)
+        if got != exp and bad is None:
+            bad = (what, metas, kw, got, exp)
+    rule.obligation(bad is None)
+    if bad is not None:
+        what, metas, kw, got, exp = bad
+        rule.violation(f'css_match.CSSMatch.match_lang table: {what}', mod.where(fn),
+                       f'match_lang: case "{what}" (meta elements {metas}, lang attributes {kw}) - the element is found to have '
+                       f'language {got!r}, expected {exp!r}: the nearest lang attribute wins; otherwise the first <meta> carrying both '
+                       f'http-equiv=content-language and a non-empty content, in any attribute order and letter case')
